@@ -30,6 +30,21 @@ pub fn spell_unit(u: &Unit, gates: &Gates) -> String {
     lay.text
 }
 
+/// the same unit with every identifier occurrence and keyword in a letter case of its own
+/// (identifiers are case-insensitive: the rules see the same names)
+pub fn spell_unit_cased(u: &Unit, gates: &Gates, key: u64) -> String {
+    let mut p = Printer::new(gates, Tape::empty());
+    p.library(&u.lib);
+    let lex = p.finish();
+    let mut o = SpellOpts::canonical();
+    o.ident_case = true;
+    o.kw_case = true;
+    let bytes = crate::tape::derived(&key.to_le_bytes(), 4096);
+    let (lay, _) = layout(&lex, &o, &mut Tape::new(&bytes));
+    gates.take_hits();
+    lay.text
+}
+
 pub enum Verdict {
     Ok,
     Err(Vec<Diagnostic>),
@@ -165,6 +180,13 @@ fn check_tape(tape: &[u8], gates: &Gates, stats: &mut Stats, counting: bool, per
     let unit = gen_unit(&mut t, gates, &profile);
     let derived = crate::tape::derived(tape, 256);
     let mut choice = Tape::new(&derived);
+    // a third of the units (and their mutants) are written with random letter case per occurrence
+    let key = crate::tape::fnv(tape);
+    let cased = key % 3 == 1;
+    let spell_unit = |u: &Unit, g: &Gates| if cased { spell_unit_cased(u, g, key) } else { spell_unit(u, g) };
+    if counting && cased {
+        stats.class("spelling.random-letter-case");
+    }
     let text = spell_unit(&unit, gates);
     let h = hash_str(&text);
     let valid_outcome = check_valid(&text, &unit.lib);
